@@ -127,6 +127,12 @@ pub struct Exec<'a> {
     pub polls: u64,
     /// Watchdog: maximum number of polls per `run_*` call.
     pub max_polls: u64,
+    /// Number of times the clock was pushed forward although tasks kept waking each other
+    /// (busy-wait loops: in the real world time passes while they spin).
+    pub forced_advances: u64,
+    /// After that many consecutive rounds at one virtual instant the clock is pushed to the next
+    /// alarm.
+    pub spin_rounds: u32,
 }
 
 impl<'a> Exec<'a> {
@@ -141,6 +147,8 @@ impl<'a> Exec<'a> {
             sources: Vec::new(),
             polls: 0,
             max_polls: 5_000_000,
+            forced_advances: 0,
+            spin_rounds: 200,
         }
     }
 
@@ -191,12 +199,41 @@ impl<'a> Exec<'a> {
     pub fn run_until<G: FnMut() -> bool>(&mut self, deadline: u64, mut goal: G) -> Stop {
         let mut budget = self.max_polls;
         let mut order: Vec<usize> = Vec::new();
+        let mut spin_at = clock::now();
+        let mut spin = 0u32;
         loop {
             if goal() {
                 return Stop::Goal;
             }
             self.fire_sources();
-            if !self.flag.0.swap(false, Ordering::SeqCst) {
+            if clock::now() != spin_at {
+                spin_at = clock::now();
+                spin = 0;
+            }
+            let mut woken = self.flag.0.swap(false, Ordering::SeqCst);
+            if woken {
+                spin += 1;
+                if spin > self.spin_rounds {
+                    // Tasks keep waking each other without the clock moving: a busy-wait. Let
+                    // time pass, as it would on a real CPU.
+                    let next = match (clock::next_alarm(), self.next_source_due()) {
+                        (Some(a), Some(b)) => Some(a.min(b)),
+                        (a, b) => a.or(b),
+                    };
+                    if let Some(t) = next {
+                        if t <= deadline {
+                            self.forced_advances += 1;
+                            self.flag.0.store(true, Ordering::SeqCst);
+                            clock::advance_to(t);
+                            continue;
+                        }
+                    }
+                }
+            }
+            if !woken {
+                woken = self.flag.0.swap(false, Ordering::SeqCst);
+            }
+            if !woken {
                 let next = match (clock::next_alarm(), self.next_source_due()) {
                     (Some(a), Some(b)) => Some(a.min(b)),
                     (a, b) => a.or(b),
